@@ -251,6 +251,15 @@ package keeper
 //@   loop 0 invariant forall u int :: 0 <= u && u < len(updates) ==> updates[u].Power > 0
 //@   loop 0 invariant forall k bytes :: Validators[k] == V0[k] || (Validators[k] == None && V0[k] != None && L0[k] == None && val(V0[k]).ConsPower <= 0)
 //@   loop 0 invariant forall j int :: 0 <= j && j < $i && validators[j].ConsPower <= 0 && L0[addrBytes(2, validators[j].OperatorAddress)] == None ==> Validators[addrBytes(2, validators[j].OperatorAddress)] == None
+//   what one iteration does to the batch handed to the consensus engine (two-state step relations; the global statement
+//   "the batch is exactly the additions/changes followed by the removals" follows by induction over the iterations, which is not machine-checked)
+//@   loop 0 step forall u int :: 0 <= u && u < prev(len(updates)) ==> updates[u] == prev(updates)[u]                                                   // C13: batch_only_grows
+//@   loop 0 step len(updates) == prev(len(updates)) + ((validators[$i - 1].ConsPower > 0 && prev(last)[validators[$i - 1].OperatorAddress] != Some(validators[$i - 1].ConsPower)) ? 1 : 0)                                                                              // C13: one_update_per_new_or_changed_bonded_validator
+//@   loop 0 step (validators[$i - 1].ConsPower > 0 && prev(last)[validators[$i - 1].OperatorAddress] != Some(validators[$i - 1].ConsPower)) ==> updates[len(updates) - 1].PubKey == cmtPubKey(val(validators[$i - 1].ConsensusPubkey).cachedValue)
+//@        && updates[len(updates) - 1].Power == validators[$i - 1].ConsPower                                                                                   // C13: update_carries_the_validators_key_and_power
+//@   loop 1 step forall u int :: 0 <= u && u < prev(len(updates)) ==> updates[u] == prev(updates)[u]                                                   // C13: batch_only_grows
+//@   loop 1 step len(updates) == prev(len(updates)) + 1 && updates[len(updates) - 1].Power == 0
+//@        && updates[len(updates) - 1].PubKey == cmtPubKey(val(val(prev(Validators)[noLongerBonded[$i - 1]]).ConsensusPubkey).cachedValue)                    // C13: one_removal_per_no_longer_bonded_validator
 //@   loop 1 invariant 0 <= $i && $i <= len(noLongerBonded)
 //@   loop 1 invariant forall j int :: 0 <= j && j < $i ==> Validators[noLongerBonded[j]] == None && LastValidatorPowers[noLongerBonded[j]] == None
 //@   loop 1 invariant forall k bytes :: Validators[k] == V0[k] || (Validators[k] == None && V0[k] != None && val(V0[k]).ConsPower <= 0)
